@@ -634,6 +634,17 @@ void race(int variant)
   if (!stopped)
     w.t->stop();
   cur = digest(w, cur);
+  {
+    // the event log is the observation of a race execution (distinct outcomes = distinct orders that really occurred)
+    std::string o;
+    for (auto &e : w.log)
+    {
+      o.push_back(e.kind);
+      o += std::to_string((unsigned long long)e.sid);
+      o.push_back(' ');
+    }
+    mc_obs("events: %s", o.c_str());
+  }
   finalChecks(w);
   if (w.t->getStats().sessionsCurrent != 0)
     mc_violation("gauge", "non-zero-after-stop", "sessionsCurrent=" + std::to_string(w.t->getStats().sessionsCurrent) + " after stop");
